@@ -156,6 +156,25 @@ def m_repeated(toks):
                 yield f'group {toks[j].text}...{t.text} #{j}-{i} repeated', text_of(toks[:i + 1] + [Tok(' ', 'ws')] + group + toks[i + 1:])
 
 
+HEADER_KW = {'table', 'enum', 'ref', 'tablegroup', 'project', 'note'}
+
+
+def m_doubledname(toks):
+    """the name in an element header written twice (`Ref r r:`, `Table t t {`, `Enum s.e e {` ...)"""
+    for i, t in enumerate(toks):
+        if t.kind != 'kw' or t.text.lower() not in HEADER_KW:
+            continue
+        j = i + 1
+        while j < len(toks) and toks[j].kind == 'ws':
+            j += 1
+        if j < len(toks) and toks[j].kind == 'name':
+            # (a schema-qualified name is several tokens: repeat the last part after the whole name)
+            k = j
+            while k + 2 < len(toks) and toks[k + 1].text == '.' and toks[k + 2].kind == 'name':
+                k += 2
+            yield f'header name {toks[k].text} #{k} after {t.text} doubled', text_of(toks[:k + 1] + [Tok(' ', 'ws'), toks[k]] + toks[k + 1:])
+
+
 def lines_of(toks):
     """split the token list into lines (lists of token indices)"""
     cur, out = [], []
@@ -274,7 +293,7 @@ def m_glued(toks):
                 yield f'{t.text}{junk} #{i}', text_of(toks[:i] + [Tok(t.text + junk, 'raw')] + toks[i + 1:])
 
 
-MUTATORS = {'glued': m_glued, 'aftercomment': m_aftercomment, 'stray': m_stray, 'unclosed': m_unclosed, 'doubled': m_doubled, 'repeated': m_repeated, 'badword': m_badword, 'badvalue': m_badvalue, 'truncated': m_truncated}
+MUTATORS = {'glued': m_glued, 'aftercomment': m_aftercomment, 'stray': m_stray, 'unclosed': m_unclosed, 'doubled': m_doubled, 'repeated': m_repeated, 'doubledname': m_doubledname, 'badword': m_badword, 'badvalue': m_badvalue, 'truncated': m_truncated}
 
 
 def units(tier, seed):
